@@ -1493,7 +1493,8 @@ proof fn lemma_bs_amm_final(zv: int, ts: int, rv: int, xv: int, yv: int, mv: int
         0 <= xv < r, 0 <= yv < r, 0 < mv < r,
         rv == (if ts == 1 { (zv - mv) % r } else { zv }),
     ensures (rv * r) % mv == (xv * yv) % mv, 0 <= rv < r, (xv < mv && yv < mv) ==> rv < 2 * mv,
-        rv == zv + ts * r - ts * mv
+        rv == zv + ts * r - ts * mv,
+        rv * r < xv * yv + mv * r
 {
     let z = zv + ts * r;
     lemma_bs_prod_bound(xv, yv, r, r);
@@ -1518,6 +1519,7 @@ proof fn lemma_bs_amm_final(zv: int, ts: int, rv: int, xv: int, yv: int, mv: int
         assert(z < 2 * mv) by (nonlinear_arith) requires z * r < mv * mv + mv * r, 0 < mv < r;
         assert(ts * mv >= 0);
     }
+    assert(rv * r <= z * r) by (nonlinear_arith) requires rv <= z, r > 0;
 }
 
 /// end of AMM by one: Z·R == x + m·U, so Z <= m, and Z < m for x < m
@@ -1702,6 +1704,7 @@ pub const fn almost_montgomery_mul(
         val(m@, m.len() as nat) > 0,
         (val(final(z)@, x.len() as nat) * bp(x.len() as nat)) % val(m@, m.len() as nat) == (val(x@, x.len() as nat) * val(y@, y.len() as nat)) % val(m@, m.len() as nat),
         (val(x@, x.len() as nat) < val(m@, m.len() as nat) && val(y@, y.len() as nat) < val(m@, m.len() as nat)) ==> val(final(z)@, x.len() as nat) < 2 * val(m@, m.len() as nat),
+        val(final(z)@, x.len() as nat) * bp(x.len() as nat) < val(x@, x.len() as nat) * val(y@, y.len() as nat) + val(m@, m.len() as nat) * bp(x.len() as nat),
 //@-
 {
     let n = z.len();
